@@ -665,11 +665,17 @@ func init() {
 					if nw < 1 {
 						nw = 1
 					}
-					if cfg.S*cfg.Per > 3*nw {
-						cfg.Per = 1 // every Submit must be able to return while all tasks are parked
+					// every Submit must be able to return while all tasks are parked: no more tasks per round than the
+					// workers and the queue of THIS tree's pool hold together (the queue's size is read off the pool)
+					room := nw
+					if q := poolQCap(cfg.W); q > 0 {
+						room += q
 					}
-					if cfg.S > 3*nw {
-						cfg.S = 3 * nw
+					if cfg.S*cfg.Per > room {
+						cfg.Per = 1
+					}
+					if cfg.S > room {
+						cfg.S = room
 					}
 				case "earlyclose": // Close without Wait: conformance with the specification only, no verdict
 					cfg.W = r.Intn(4)
